@@ -62,8 +62,3 @@ package apiregserver
 //@ func (p registrar) RegisterUnidirectional(c2s *pb.C2SWrapper, src pb.RegistrationSource, addr []byte) error
 //@   assigns memory
 
-// counters of another package (its own lock and map)
-//@ func (m *metrics.Metrics) Add(name string, val int)
-//@   requires m != nil
-//@   assigns nothing
-//@   trusted
